@@ -90,6 +90,7 @@ type Upstream struct {
 	// points to the flush loop. Close waits for them after it has marked the stream as draining, so that every write
 	// that returned nil is part of what Close flushes and reports.
 	writesInFlight atomic.Int64
+	closeCalled    atomic.Bool
 	sequence       *sequenceNumberGenerator
 
 	afterHooker          ReceiveAckHooker
@@ -139,6 +140,15 @@ func (u *Upstream) stateWithoutLock() *UpstreamState {
 
 // Closeは、アップストリームを閉じます。
 func (u *Upstream) Close(ctx context.Context, opts ...UpstreamCloseOption) error {
+	// exactly one Close goes through. The stream status cannot tell: a resume that happens while the first Close is
+	// waiting for acknowledgements sets it back to "connected", and a second Close then sent a second close request
+	// and raised the closed event a second time.
+	if !u.closeCalled.CompareAndSwap(false, true) {
+		if u.isClosed() {
+			return nil
+		}
+		return errors.New("already draining")
+	}
 	beforeStatus := u.state.Swap(streamStatusDraining)
 	if beforeStatus == streamStatusDraining {
 		return errors.New("already draining")
